@@ -425,6 +425,24 @@ func (p *c15) Run(i int) (res fw.Result) {
 				}
 			}
 		}
+		// a decimal is the number its digits spell: coefficients of few and of many digits at every scale from 10^-40 to
+		// 10^5 (the number of a decimal is the number of its string, whichever way the library gets there)
+		if i == p.nZoo+p.nInts+p.nI16+p.nFl {
+			for _, c := range []int64{1, 3, 7, 9, 11, 15, 123456789, 1<<53 - 1, 1 << 53, 1<<53 + 1, 999999999999999999, -1, -7, -123456789} {
+				for e := int32(-40); e <= 5; e++ {
+					d := decimal.New(c, e)
+					str := stick.CoerceString(d)
+					want, err := strconv.ParseFloat(str, 64)
+					res.Evals += 2
+					if got := stick.CoerceNumber(d); err != nil || got != want {
+						res.Fail("decimal-number", fmt.Sprintf("c15:dec:%d:%d", c, e), fmt.Sprintf("CoerceNumber(decimal %de%d) = %v; its string %q spells %v (%v)", c, e, got, str, want, err), nil)
+					}
+					if got := stick.CoerceNumber(&d); err != nil || got != want {
+						res.Fail("decimal-number", fmt.Sprintf("c15:decp:%d:%d", c, e), fmt.Sprintf("CoerceNumber(pointer to decimal %de%d) = %v; its string %q spells %v (%v)", c, e, got, str, want, err), nil)
+					}
+				}
+			}
+		}
 		res.AddClass("numeric-string-block")
 	}
 	return
